@@ -336,7 +336,7 @@ func registerAll() {
 
 func TestPropJSON(t *testing.T) {
 	registerAll()
-	ev.Rapid(t, "json", ev.N(3000, 30000), func(t *rapid.T) Case {
+	ev.Rapid(t, "json", ev.N(10000, 30000), func(t *rapid.T) Case {
 		v := gen.JSONValue(t, gen.JSONOpts{Depth: 4})
 		n := rapid.IntRange(1, 3).Draw(t, "layouts")
 		var c Case
